@@ -33,9 +33,9 @@ Example C06_parse_render_instance :
   let d := [EFront [[120]]; EHeading 1 [84]; EBlank;
             EProse [96; 105; 96; 32; 120];
             EForeign 3 [115; 104] [[36; 32; 110; 111]; [96; 96]] [96; 32];
-            EScrut 4 (Some [97]) [[35]] (Some ([99], [[100]], [BExp [96; 96; 96]; BExp [36; 32; 122]; BCode [55]])) [96; 106];
-            EScrut 3 None [] None [];
-            EProse [80; 32; 49]; EProse [80; 32; 50]; EScrut 3 None [] (Some ([101], [], [])) [32; 120]] in
+            EScrut 4 (Some [97]) [32; 9] [[35]] (Some ([99], [[100]], [BExp [96; 96; 96]; BExp [36; 32; 122]; BCode [55]])) [96; 106];
+            EScrut 3 None [] [] None [];
+            EProse [80; 32; 49]; EProse [80; 32; 50]; EScrut 3 None [32] [] (Some ([101], [], [])) [32; 120]] in
   wf_md (fun _ => true) (fun _ => true) (fun _ => true) d = true
   /\ parse_md (fun _ => true) (fun _ => true) (fun _ => true) (render_md d) = LOk (md_tests_of d)
   /\ map (fun t => (pt_title (mt_test t), pt_line (mt_test t), mt_cfg t)) (md_tests_of d)
